@@ -21,7 +21,7 @@ BUDGET = {"quick": (16, 200), "thorough": (16, 5000)}
 
 
 def strategy(tier):
-    return gp.case(max_res=7, link_bias=True)
+    return gp.case(max_res=7, link_bias=True, explicit_links=True)
 
 
 def compare_interactions(spec, written, model, clause_prefix="links"):
@@ -67,9 +67,16 @@ def check(spec, ctx):
         allowed = {atom["charge"]}
         if idx in model.charge_override:
             allowed = {rep["charge"] for _, rep in model.charge_override[idx] if "charge" in rep}
+            allowed = allowed or {atom["charge"]}
         got = written["atoms"][idx - 1]["charge"] if idx <= len(written["atoms"]) else None
         if got is None or all(abs(got - a) > 1e-9 for a in allowed):
             raise Violation("links:replace", f"atom {idx} charge {got} not in {sorted(allowed)}")
+        allowed_types = {atom["type"]}
+        if idx in model.charge_override:
+            allowed_types = {rep["atype"] for _, rep in model.charge_override[idx] if "atype" in rep} or allowed_types
+        got_type = written["atoms"][idx - 1]["type"] if idx <= len(written["atoms"]) else None
+        if got_type not in allowed_types:
+            raise Violation("links:replace_type", f"atom {idx} type {got_type!r} not in {sorted(allowed_types)}")
     # cross-residue edges of the built molecule
     molecule = run.captured["molecule"]
     order = list(molecule.sorted_nodes)
